@@ -428,7 +428,7 @@ func c11PaillierProofEq(c *ctx, rule string, fn *ssa.Function) {
 	c.r.Check(found, rule, fkey(rule, fn, "equation:y_i^N=x_i mod N"), c.fpos(fn), wit, "no rejecting equality guard depends on the proof elements, pkN and the derived challenges; equality guards found depend on:"+seenDeps)
 	// trial division: a closure sends false when pkN mod prm == 0 for prm over primes.Until(verifyPrimesUntil)
 	td := false
-	for _, g := range core.WithClosures(fn) {
+	for _, g := range unitFuncs(fn) {
 		if g == fn {
 			continue
 		}
@@ -527,7 +527,10 @@ func selectJoinOK(fn *ssa.Function) bool {
 
 func countProducers(fn *ssa.Function, mk *ssa.MakeChan) int {
 	n := 0
-	for _, g := range fn.AnonFuncs {
+	for _, g := range unitFuncs(fn) {
+		if g == fn {
+			continue
+		}
 		sends := 0
 		for _, b := range g.Blocks {
 			for _, in := range b.Instrs {
